@@ -106,6 +106,11 @@ type key struct {
 type rec struct {
 	must int64 // found for sure while now <= must
 	may  int64 // may legitimately be found while now <= may; afterwards lapsed, awaiting the reaper
+	// gone: a look-up has reported the lapsed record absent. It may still occupy memory (an
+	// implementation may ignore lapsed records in Find and reap them later: legitimate
+	// variation C02-r2-1), so it still counts towards the upper bound of the list size, but
+	// it must not be found again unless it is recorded again.
+	gone bool
 }
 
 func setup(lifeMs int64) {
@@ -179,10 +184,10 @@ func run(c Case) (res evid.Result) {
 					cls["re-recorded-while-live"] = true
 				default: // lapsed: still there, or gone
 					if got {
-						r.may = now + c.LifeMs
+						r.may, r.gone = now+c.LifeMs, false
 						cls["re-recorded-while-lapsed:old-record-still-held"] = true
 					} else {
-						r.must, r.may = now+c.LifeMs, now+c.LifeMs
+						r.must, r.may, r.gone = now+c.LifeMs, now+c.LifeMs, false
 						cls["re-recorded-while-lapsed:new-record"] = true
 					}
 				}
@@ -198,8 +203,10 @@ func run(c Case) (res evid.Result) {
 				return fail(i, "the nonce %d of %s was recorded as dead %dms ago and is no longer found: an Interest repeating it would be forwarded (C02)", k.nonce, names[k.name], now-(r.must-c.LifeMs))
 			case had && now <= r.must:
 				cls["live-record-found"] = true
+			case had && r.gone && got:
+				return fail(i, "the lapsed record (%s, nonce %d) was reported absent before and is found again although it was not recorded again", names[k.name], k.nonce)
 			case had && !got:
-				delete(recs, k)
+				r.gone = true
 				cls["lapsed-record-seen-gone"] = true
 			case had:
 				cls["lapsed-record-still-found"] = true
